@@ -15,11 +15,11 @@ func init() { Registry["C03"] = C03 }
 // listingFuncs are the functions that add entries to an ObjectList.
 var listingFuncs = []string{
 	"s3mem.(*Backend).ListBucket",
-	"s3bolt.(*Backend).ListBucket$1",
+	"s3bolt.(*Backend).ListBucket",
 	"s3afero.(*MultiBucketBackend).getBucketWithFilePrefixLocked",
-	"s3afero.(*MultiBucketBackend).getBucketWithArbitraryPrefixLocked$1",
+	"s3afero.(*MultiBucketBackend).getBucketWithArbitraryPrefixLocked",
 	"s3afero.(*SingleBucketBackend).getBucketWithFilePrefixLocked",
-	"s3afero.(*SingleBucketBackend).getBucketWithArbitraryPrefixLocked$1",
+	"s3afero.(*SingleBucketBackend).getBucketWithArbitraryPrefixLocked",
 }
 
 // C03 — listings are the exact, sorted, correctly grouped view of the live keys.
@@ -53,22 +53,26 @@ type addSite struct {
 func addSites(r *core.Run) []addSite {
 	var out []addSite
 	for _, n := range listingFuncs {
-		fn := mustFunc(r, n)
-		if fn == nil {
+		root := mustFunc(r, n)
+		if root == nil {
 			continue
 		}
-		core.Instrs(fn, func(in ssa.Instruction) {
-			c, ok := in.(*ssa.Call)
-			if !ok {
-				return
-			}
-			switch r.P.CalleeName(c) {
-			case "gofakes3.(*ObjectList).Add":
-				out = append(out, addSite{fn, c, false})
-			case "gofakes3.(*ObjectList).AddPrefix":
-				out = append(out, addSite{fn, c, true})
-			}
-		})
+		// the function itself and the closures it hands to View / Walk / ForEach
+		for _, f := range core.Closures(root) {
+			fn := f
+			core.Instrs(fn, func(in ssa.Instruction) {
+				c, ok := in.(*ssa.Call)
+				if !ok {
+					return
+				}
+				switch r.P.CalleeName(c) {
+				case "gofakes3.(*ObjectList).Add":
+					out = append(out, addSite{fn, c, false})
+				case "gofakes3.(*ObjectList).AddPrefix":
+					out = append(out, addSite{fn, c, true})
+				}
+			})
+		}
 	}
 	return out
 }
@@ -181,7 +185,9 @@ func rule031(r *core.Run) {
 		case strings.HasPrefix(name, "s3mem."):
 			okKey = s.prefix && ks.Has("field:gofakes3.PrefixMatch.MatchedPart") || !s.prefix && ks.Has("field:s3mem.bucketData.name") && ks.Has("call:goskipiter.(*Iterator).Value")
 		case strings.HasPrefix(name, "s3bolt."):
-			okKey = s.prefix && ks.Has("field:gofakes3.PrefixMatch.MatchedPart") || !s.prefix && ks.HasPrefix("call:(*go.etcd.io/bbolt.Cursor).") && !ks.HasPrefix("call:strings.")
+			iterK, _ := boltForEachParams(r, s.fn)
+			fromIter := ks.HasPrefix("call:(*go.etcd.io/bbolt.Cursor).") || iterK != nil && ks.HasValue(iterK)
+			okKey = s.prefix && ks.Has("field:gofakes3.PrefixMatch.MatchedPart") || !s.prefix && fromIter && !ks.HasPrefix("call:strings.")
 		case strings.Contains(name, "FilePrefixLocked"):
 			okKey = ks.HasPrefix("call:invoke:io/fs.FileInfo.Name") || ks.HasPrefix("call:invoke:os.FileInfo.Name")
 			okKey = okKey && ks.Has("call:path.Join") && ks.HasPrefix("param:")
@@ -329,6 +335,10 @@ func rule033(r *core.Run) {
 					if strings.Contains(r.P.CalleeName(c), "Cursor).") && ky.Calls[c] {
 						same = true
 					}
+				}
+				// … or the (k, v) pair a Bucket.ForEach callback was called with
+				if ik, iv := boltForEachParams(r, s.fn); ik != nil && iv != nil && vs.HasValue(iv) && ky.HasValue(ik) {
+					same = true
 				}
 				okE, okS = okE && same, okS && same
 			}
@@ -725,7 +735,7 @@ func rule036(r *core.Run) {
 		}
 		r.Check(!skip, "R03.6", key(sp.fn, "no silent skip of a live matching key"), p0, "every live key that matches is listed or grouped", "a live key that matches the prefix can be passed over without being listed or grouped (a condition other than the admissible ones continues the loop)")
 	}
-	r.Floor("R03.6", 4, "listing loops")
+	r.Floor("R03.6", 3, "listing loops")
 }
 
 // rule037 — Prefix.Match splits and re-joins with the request's delimiter.
@@ -937,8 +947,8 @@ func rule039(r *core.Run) {
 				"pruneEmptyDirs is handed a directory (a path.Dir result or a collected directory) instead of the deleted object's path: it starts one level too high and leaves the emptied directory behind as a phantom common prefix")
 		}
 	}
-	if n < 4 {
-		r.Unresolved("R03.9: %d cursor moves / prune calls found (expected at least 4)", n)
+	if n < 2 {
+		r.Unresolved("R03.9: %d cursor moves / prune calls found (expected at least 2)", n)
 	}
 }
 
@@ -1107,4 +1117,30 @@ func prefixSources(r *core.Run, v ssa.Value) map[string]bool {
 	}
 	walk(v, 0)
 	return out
+}
+
+// boltForEachParams: if fn is a function literal handed to (*bolt.Bucket).ForEach,
+// its key and value parameters (the pair of the entry being iterated).
+func boltForEachParams(r *core.Run, fn *ssa.Function) (k, v *ssa.Parameter) {
+	if fn.Parent() == nil || len(fn.Params) != 2 {
+		return nil, nil
+	}
+	isCB := false
+	core.Instrs(fn.Parent(), func(in ssa.Instruction) {
+		c, ok := in.(*ssa.Call)
+		if !ok || r.P.CalleeName(c) != "(*go.etcd.io/bbolt.Bucket).ForEach" || len(c.Call.Args) < 2 {
+			return
+		}
+		a := c.Call.Args[1]
+		if mc, ok := a.(*ssa.MakeClosure); ok {
+			a = mc.Fn
+		}
+		if a == ssa.Value(fn) {
+			isCB = true
+		}
+	})
+	if !isCB {
+		return nil, nil
+	}
+	return fn.Params[0], fn.Params[1]
 }
